@@ -9,6 +9,7 @@ use std::process::exit;
 
 mod c05;
 mod c07;
+mod c12;
 mod c15;
 mod c20;
 
@@ -21,7 +22,7 @@ pub struct Family {
 }
 
 fn families() -> Vec<Family> {
-    vec![c20::family(), c15::family(), c07::family(), c05::family()]
+    vec![c20::family(), c15::family(), c07::family(), c05::family(), c12::family()]
 }
 
 pub fn hex(b: &[u8]) -> String {
